@@ -2,6 +2,7 @@ package rules
 
 import (
 	"go/ast"
+	"go/constant"
 	"go/token"
 	"go/types"
 	"strings"
@@ -177,6 +178,69 @@ func c19(c *Ctx) {
 				"synchronizedWithNetwork reports success on a path where neither timeInSync held nor the safeguard is disabled")
 		}
 		r.Floor("C19.Z2", 2)
+
+		// Z2b: the bypass is the operator's explicit choice: the flag is off unless given, and nothing in the program sets it
+		nDef := 0
+		for _, f := range c.P.Pkg("timesafeguard").Syntax {
+			for _, d := range f.Decls {
+				gd, isGen := d.(*ast.GenDecl)
+				if !isGen {
+					continue
+				}
+				for _, sp := range gd.Specs {
+					vs, isV := sp.(*ast.ValueSpec)
+					if !isV {
+						continue
+					}
+					for i, nm := range vs.Names {
+						if c.P.Pkg("timesafeguard").TypesInfo.Defs[nm] != disableObj {
+							continue
+						}
+						nDef++
+						okDef := false
+						if i < len(vs.Values) {
+							if call, isCall := ast.Unparen(vs.Values[i]).(*ast.CallExpr); isCall && len(call.Args) >= 2 {
+								if fn := astx.Callee(c.P.Pkg("timesafeguard").TypesInfo, call); fn != nil && fn.Pkg() != nil && fn.Pkg().Path() == "flag" && fn.Name() == "Bool" {
+									if tv := c.P.Pkg("timesafeguard").TypesInfo.Types[call.Args[1]]; tv.Value != nil && tv.Value.Kind() == constant.Bool && !constant.BoolVal(tv.Value) {
+										okDef = true
+									}
+								}
+							}
+						}
+						r.Check(okDef, "C19.Z2", "timesafeguard.DisableTimesafeguard", "the safeguard is on unless the flag is given", c.P.Pos(nm.Pos()), "flag.Bool with the constant default false",
+							"the default of -disable_timesafeguard is not the constant false: the safeguard can be off without the operator having asked for it on the command line")
+					}
+				}
+			}
+		}
+		if nDef == 0 {
+			r.Break("C19.Z2: declaration of DisableTimesafeguard not found")
+		}
+		for _, fi := range c.P.AllFuncs {
+			if fi.Body() == nil {
+				continue
+			}
+			fin := fi.Info()
+			ast.Inspect(fi.Body(), func(n ast.Node) bool {
+				as, isAs := n.(*ast.AssignStmt)
+				if !isAs {
+					return true
+				}
+				for _, l := range as.Lhs {
+					set := isDisableFlag(fin, l)
+					switch x := ast.Unparen(l).(type) {
+					case *ast.Ident:
+						set = set || fin.Uses[x] == disableObj
+					case *ast.SelectorExpr:
+						set = set || fin.Uses[x.Sel] == disableObj
+					}
+					if set {
+						r.Fail("C19.Z2", fi.Name(), "the flag is set by the command line only", c.P.Pos(as.Pos()), "the program itself sets -disable_timesafeguard: the safeguard is bypassed without the operator's choice")
+					}
+				}
+				return true
+			})
+		}
 
 		// Z3: slice handed to timeInSync only receives non-zero results
 		for _, call := range callsIn(swn, func(fn *types.Func, _ *ast.CallExpr) bool { return fn == tis.Obj }) {
